@@ -137,8 +137,11 @@ def workdir(name):
 
 
 def write_tree(base, files):
-    """files: {relative path: text}"""
+    """files: {relative path: text}; the placeholder @BASE@ in a text stands for the absolute path of `base`
+    (library roots must be configured as normalised absolute paths: a `../lib` entry is registered un-normalised
+    and then matches no file, which silently turns the library files into unowned files of the main context)"""
     for rel, text in files.items():
+        text = text.replace("@BASE@", os.path.abspath(base))
         p = os.path.join(base, rel)
         os.makedirs(os.path.dirname(p), exist_ok=True)
         with open(p, "w", encoding="utf-8", newline="") as f:
